@@ -12,7 +12,7 @@ Cases (JSON):
   {"op":"runif","spec":SPEC,"seq":"ident"|"dup"|"drop"|"tag","values":[..]}
   {"op":"groupby","group_by":S,"merge":S,"contexts":[ctx|null,..],"via":"fill"|"update","end":"reset"|"clear"}
   {"op":"groupby","group_by":S,"merge":S,"ctxset":"ab2"}                    a named, fixed list of contexts
-        S = "str" | ["str",..] | {"notiter":true} (a callable)
+        S = "str" | ["str",..] (a tuple) | {"list":["str",..]} (a list) | {"notiter":true} (a callable)
   {"op":"oldgroupby","group_by":NAME | [NAME,..] | {"bad":true},"values":[..]}   the deprecated _GroupBy with callables
   {"op":"contains","ctx":ctx,"s":"a.b"}   {"op":"splitkey","s":..}   {"op":"startswith","a":[..],"b":[..]}
 SPEC and KEY are the encodings documented in lean/drivers/C15.lean; a context leaf ["obj", s] is an object that json
@@ -115,14 +115,14 @@ RULE = ("select: exhaustive specifications of depth <= 2 over 4 leaves (string, 
         "raise_on_error x 12 values, as Selector and as Filter; all Not-chains of depth <= 3 x all raise_on_error combinations over "
         "9 inner selectors (raising, total, partial; bare and wrapped in Selector with either raise_on_error), also inside lists; "
         "SelectContext over 19 key forms (dotted strings, lists, one-key dictionaries, malformed keys) x 6 predicates; seeded "
-        "random specifications of depth <= 3 (quick 2000, thorough 100000) with Selector/And/Or/Not/SelectContext instances, bad "
+        "random specifications of depth <= 3 (quick 1800, thorough 100000) with Selector/And/Or/Not/SelectContext instances, bad "
         "items, random contexts (present-but-falsy sub-contexts, unserialisable objects). filterseq: all pairs of 9 leaves + "
         "sampled (quick 300, thorough 8000); runif: 13 selectors x 4 sequences + sampled (quick 200, thorough 5000). groupby: "
         "every assignment of the 6 paths of depth <= 2 over {a,b} to group_by/merge/neither x both roots (1458 key sets) x all "
         "361 contexts of depth <= 2 over {a,b} with leaves {1,2} and {}; every assignment of those 6 paths to "
-        "group_by/merge/both/neither (overlaps, 8192 key sets; quick: a seeded sample of 1200) x 40 contexts; seeded random key "
-        "sets over {a,b,c} up to depth 3 with random contexts up to depth 3 (quick 800, thorough 40000), overlapping and "
-        "improper key sets, string/tuple/callable argument forms, update/clear aliases, unserialisable objects. oldgroupby: "
+        "group_by/merge/both/neither (overlaps, 8192 key sets; quick: a seeded sample of 900) x 40 contexts; seeded random key "
+        "sets over {a,b,c} up to depth 3 with random contexts up to depth 3 (quick 700, thorough 40000), overlapping and "
+        "improper key sets, all 169 combinations of 13 spellings of the arguments (strings, tuples, lists, empty containers), callables, update/clear aliases, unserialisable objects. oldgroupby: "
         "all singles, pairs and sampled triples of 6 callables x random flows. contains: 16 strings x 120 contexts; "
         "_split_key and _startswith on small exhaustive sets. Non-trivial: select - a value is selected and another is not, "
         "or an exception; groupby - at least two groups and a group with two values, or a construction error.")
@@ -617,7 +617,7 @@ def _gen_groupby_exhaustive(ctx):
 def _gen_groupby_overlap(ctx, rng):
     sets = list(_keysets_ab2_overlap())
     if ctx.tier == "quick":
-        sets = rng.sample(sets, 1200)
+        sets = rng.sample(sets, 900)
     for g, m in sets:
         yield {"op": "groupby", "group_by": g, "merge": m, "ctxset": "ab2s"}
 
@@ -633,6 +633,13 @@ def _gen_groupby_special(ctx):
                  (nt, ""), ("", nt), (nt, nt), (nt, "a"), (["", "a"], nt), (nt, ["a..b"]), ("a..b", nt)]:
         for via, end in (("fill", "reset"), ("update", "clear")):
             yield {"op": "groupby", "group_by": g, "merge": m, "contexts": some_ctx + [None], "via": via, "end": end}
+    # every combination of the spellings of "nothing", "the root", and keys — string, tuple, list, empty containers
+    forms = ["", [], {"list": []}, [""], {"list": [""]}, "a", ["a"], {"list": ["a"]}, ["", "a"], ["a", "b"], "a.b",
+             ["", "a.b"], {"list": ["", "b"]}]
+    vals = [{"a": 1}, {"a": 2}, {"a": 1, "b": 1}, {}, None, {"a": {"b": 1}}, {"a": {"b": 2}}, {"b": 1}, {"a": 1}]
+    for g in forms:
+        for m in forms:
+            yield {"op": "groupby", "group_by": g, "merge": m, "contexts": vals}
     objs = [{"a": 1, "b": _U}, {"a": _U}, {"a": {"b": _U, "a": 1}}, {"a": {"a": 1}, "b": {"b": _U}}, {"a": 1}, {"b": 2},
             {"a": {"b": 1, "a": _U}}, None]
     for g, m in [("a", ""), ("", "a"), ("", "b"), ("a.a", ""), ("", "a.b"), (["", "a.b"], ["a"]), ("", ""), ("b", ""),
@@ -705,8 +712,8 @@ def gen_cases(ctx):
         _gen_filterseq(ctx, r[1], 300 if quick else 8000),
         _gen_runif(ctx, r[2], 200 if quick else 5000),
         _gen_groupby_overlap(ctx, r[3]),
-        _gen_select_random(ctx, r[4], 2000 if quick else 100000),
-        _gen_groupby_random(ctx, r[5], 800 if quick else 40000),
+        _gen_select_random(ctx, r[4], 1800 if quick else 100000),
+        _gen_groupby_random(ctx, r[5], 700 if quick else 40000),
         _gen_select_exhaustive(ctx),
         _gen_groupby_exhaustive(ctx),
     ]
@@ -765,6 +772,15 @@ def _arg_items(x):
     if isinstance(x, dict):
         return list(x["list"]) if "list" in x else None
     return [x] if isinstance(x, str) else list(x)
+
+
+def canon_keys(x):
+    """JSON-able form of keys / data an implementation may return (anything unexpected becomes its repr)"""
+    if isinstance(x, (list, tuple)):
+        return [canon_keys(y) for y in x]
+    if x is None or isinstance(x, (bool, int, str)):
+        return x
+    return {"repr": repr(x)}
 
 
 def _gb_arg(x):
@@ -847,12 +863,20 @@ def run_impl(case):
                     fill(i if c is None else (i, _mk(c)))
                 except Exception as e:  # noqa: BLE001
                     errors.append({"at": i, "e": exc_name(e)})
-            groups = []
-            for grp in gb.compute():
-                groups.append([v if isinstance(v, int) else v[0] for v in grp])
             import json
-            keys = [json.loads(k) for k in gb.groups]
-            keystrs = list(gb.groups)
+            try:
+                groups = []
+                for grp in gb.compute():
+                    groups.append([v if isinstance(v, int) else v[0] for v in grp])
+                keystrs = [k if isinstance(k, str) else repr(k) for k in gb.groups]
+                keys = []
+                for k in keystrs:
+                    try:
+                        keys.append(json.loads(k))
+                    except ValueError:
+                        keys.append({"not-json": k})
+            except Exception as e:  # noqa: BLE001 - an implementation that cannot even yield its groups
+                return {"broken": f"compute() / groups raised {exc_name(e)} after the values were filled", "errors": errors}
             # reset() / clear() empty the element, which can then be used again
             reuse = None
             after = None
@@ -894,15 +918,19 @@ def run_impl(case):
                     fill(_value(v))
                 except Exception as e:  # noqa: BLE001
                     errors.append({"at": i, "e": exc_name(e)})
-            keys, groups = [], []
-            for k, grp in gb.groups.items():
-                keys.append(list(k) if isinstance(k, tuple) else [k])
-                groups.append([_unvalue(v)["d"] for v in grp])
-            if case.get("end") == "clear":
-                gb.clear()
-            else:
-                gb.reset()
-        return {"groups": groups, "keys": keys, "errors": errors, "after": len(gb.groups)}
+            try:
+                keys, groups = [], []
+                for k, grp in gb.groups.items():
+                    keys.append(list(k) if isinstance(k, tuple) else [k])
+                    groups.append([_unvalue(v)["d"] for v in grp])
+                if case.get("end") == "clear":
+                    gb.clear()
+                else:
+                    gb.reset()
+                after = len(gb.groups)
+            except Exception as e:  # noqa: BLE001
+                return {"broken": f"groups / reset raised {exc_name(e)}", "errors": errors}
+        return {"groups": canon_keys(groups), "keys": canon_keys(keys), "errors": errors, "after": after}
     if op == "contains":
         import lena.context
         return {"r": _out(lena.context.contains, _mk(case["ctx"]), case["s"])}
@@ -984,6 +1012,13 @@ def _eq(what, a, b):
 
 
 def compare(case, res, replies):
+    try:
+        return _compare(case, res, replies)
+    except Exception as e:  # noqa: BLE001 - an implementation result of an unexpected shape is a disagreement
+        return f"implementation result of unexpected shape ({type(e).__name__}: {e}): {jdump(_jsonable(res))[:300]}"
+
+
+def _compare(case, res, replies):
     m = replies[0]
     if "err" in m:
         return f"model driver error: {m['err']}"
@@ -1053,6 +1088,8 @@ def compare(case, res, replies):
     e = _compare_gb_init(case, res, m)
     if e:
         return e
+    if "broken" in res:
+        return f"implementation: {res['broken']}"
     e = (_eq("groups", res["groups"], m["groups"]) or _eq("keys", res["keys"], m["keys"])
          or _eq("to_string of the keys (C08's model)", res["keystrs"], m["keystrs"])
          or _eq("fill errors", res["errors"], m["errors"]) or _eq("after reset/clear", res["after"], m["after"]))
@@ -1065,9 +1102,7 @@ def compare(case, res, replies):
         for k in always:
             if m.get(k) is not True:
                 return f"specification-side check {k} is {m.get(k)}"
-        G, M = _split_paths(case["group_by"]), _split_paths(case["merge"])
-        if case["group_by"] == "" and case["merge"] == "":
-            G, M = set(), {()}
+        G, M = _gm(case)
         cs = _contexts(case)
         for c, nodes in zip(cs, m["nodes"]):
             ref = {p: v for p, v in _nodes(c or {})}
@@ -1335,6 +1370,26 @@ def _ref_seq(name, v):
 
 
 def oracle(case, res):
+    """total: a result of the implementation that cannot be interpreted is reported as a failure with its input, the
+    harness does not crash on it"""
+    try:
+        return _oracle(case, res)
+    except Exception as e:  # noqa: BLE001
+        return (f"the result of the implementation could not be interpreted ({type(e).__name__}: {e}); "
+                f"result {jdump(_jsonable(res))[:300]}")
+
+
+def _jsonable(x):
+    if isinstance(x, dict):
+        return {str(k): _jsonable(v) for k, v in x.items()}
+    if isinstance(x, (list, tuple)):
+        return [_jsonable(v) for v in x]
+    if x is None or isinstance(x, (bool, int, str)):
+        return x
+    return repr(x)
+
+
+def _oracle(case, res):
     op = case["op"]
     if op == "select":
         spec = case["spec"]
@@ -1414,15 +1469,25 @@ def oracle(case, res):
         return None
     if op == "oldgroupby":
         return _oracle_old(case, res)
-    # ---- groupby
+    # ---- groupby: the documented exception for the argument combinations the documentation rejects, the partition
+    # for the accepted ones
+    expected = _ref_gb_init(case)
     if "init" in res:
-        return None          # the property speaks about key sets accepted by make_include_exclude_tree
+        if expected is None:
+            return (f"GroupBy({case['group_by']!r}, {case['merge']!r}) raised {res['init']} at construction although exactly one "
+                    f"argument lists the root and the key sets are properly nested")
+        if res["init"] != expected:
+            return f"GroupBy({case['group_by']!r}, {case['merge']!r}) raised {res['init']} at construction, documented: {expected}"
+        return None
+    if expected is not None:
+        return (f"GroupBy({case['group_by']!r}, {case['merge']!r}) was accepted; the documentation demands {expected} (the root \"\" "
+                f"in exactly one of group_by and merge, proper subkeys, group_by/merge keys strictly within merge/group_by keys)")
+    if "broken" in res:
+        return f"GroupBy({case['group_by']!r}, {case['merge']!r}): {res['broken']}"
     if res["after"] is None or res["after"] or res["reuse"] != res["groups"]:
         return (f"GroupBy({case['group_by']!r}, {case['merge']!r}) after reset()/clear(): groups {res['after']}; filled again with the "
                 f"same values: {res['reuse']}, the first time: {res['groups']}")
-    G, M = _split_paths(case["group_by"]), _split_paths(case["merge"])
-    if case["group_by"] == "" and case["merge"] == "":
-        G, M = set(), {()}
+    G, M = _gm(case)
     if G & M:
         return None          # excluded by hypothesis: a path listed in both has no longest-prefix entry
     cs = _contexts(case)
@@ -1474,6 +1539,8 @@ def _oracle_old(case, res):
         return None if isinstance(gbj, dict) and res["init"] == "LenaTypeError" else f"_GroupBy construction raised {res['init']}"
     if isinstance(gbj, dict):
         return "_GroupBy accepted a group_by that is neither a callable nor a string"
+    if "broken" in res:
+        return f"_GroupBy({gbj}): {res['broken']}"
     import lena.core
     t = _keyfn_table()
     keys, errs = [], {}
@@ -1564,7 +1631,7 @@ def classify(case, res):
         return [op]
     if "init" in res:
         return ["groupby:init=" + res["init"]]
-    G, M = _split_paths(case["group_by"]), _split_paths(case["merge"])
+    G, M = _gm(case)
     labels = ["groupby:root=" + ("group_by" if () in G else "merge"),
               f"groupby:maxdepth={max([len(p) for p in G | M] + [0])}",
               f"groupby:groups={min(len(res.get('groups', [])), 10)}"]
